@@ -604,6 +604,61 @@ Proof.
   rewrite <- put_batch_est, <- put_est. reflexivity.
 Qed.
 
+Lemma select_est P s : select P (est s) = (fst (select P s), est (snd (select P s))).
+Proof.
+  unfold select. cbn [sb est].
+  change (filter (fun k => eligible k (est s)) (sb s)) with (filter (fun k => eligible k s) (sb s)).
+  destruct (filter (fun k => eligible k s) (sb s)) as [|k0 el]; [reflexivity|].
+  change (with_sb (est s) (k0 :: el)) with (est (with_sb s (k0 :: el))).
+  set (s1 := with_sb s (k0 :: el)).
+  change (oracle (est s1)) with (oracle s1). destruct (oracle s1) as [|c rest].
+  - rewrite first_max_est. reflexivity.
+  - change (is_max P c (k0 :: el) (est s1)) with (is_max P c (k0 :: el) s1).
+    destruct (existsb (key_eqb c) (k0 :: el) && is_max P c (k0 :: el) s1); [reflexivity|].
+    rewrite first_max_est. reflexivity.
+Qed.
+
+Lemma continue_with_batch_est P s : continue_with_batch P (est s) = est (continue_with_batch P s).
+Proof.
+  unfold continue_with_batch. rewrite select_est. destruct (select P s) as [[k|] s1]; cbn [fst snd]; [|reflexivity].
+  change (with_sb (est s1) (filter (fun k' => negb (key_eqb k' k)) (sb (est s1))))
+    with (est (with_sb s1 (filter (fun k' => negb (key_eqb k' k)) (sb s1)))).
+  rewrite emit_est by reflexivity. rewrite flush_batch_est. rewrite emit_est by reflexivity. reflexivity.
+Qed.
+
+Lemma inst_est parent y : forall s,
+  inst parent (ymap erase_leaf y) (est s) = (fst (inst parent y s), est (snd (inst parent y s))).
+Proof.
+  induction y as [| a | l IH | l IH | l IH] using ystruct_ind2; intros s.
+  - reflexivity.
+  - destruct a as [f|h|]; try reflexivity. cbn [ymap erase_leaf inst]. rewrite create_est.
+    destruct (create parent f s) as [h s1]. reflexivity.
+  - rewrite ymap_tuple. simpl.
+    match goal with |- context [(?g (map (ymap erase_leaf) l) (est s))] => set (go' := g) end.
+    match goal with |- context [(?g l s)] => set (go := g) end.
+    assert (H : forall s, go' (map (ymap erase_leaf) l) (est s) = (fst (go l s), est (snd (go l s)))).
+    { clear s. induction IH as [|x l Hx Hl IHl]; intros s; [reflexivity|]. simpl.
+      rewrite Hx. destruct (inst parent x s) as [x' s1]. cbn [fst snd].
+      rewrite IHl. destruct (go l s1) as [l'' s2]. reflexivity. }
+    rewrite H. destruct (go l s). reflexivity.
+  - rewrite ymap_ylist. simpl.
+    match goal with |- context [(?g (map (ymap erase_leaf) l) (est s))] => set (go' := g) end.
+    match goal with |- context [(?g l s)] => set (go := g) end.
+    assert (H : forall s, go' (map (ymap erase_leaf) l) (est s) = (fst (go l s), est (snd (go l s)))).
+    { clear s. induction IH as [|x l Hx Hl IHl]; intros s; [reflexivity|]. simpl.
+      rewrite Hx. destruct (inst parent x s) as [x' s1]. cbn [fst snd].
+      rewrite IHl. destruct (go l s1) as [l'' s2]. reflexivity. }
+    rewrite H. destruct (go l s). reflexivity.
+  - rewrite ymap_ydict. simpl.
+    match goal with |- context [(?g (map _ l) (est s))] => set (go' := g) end.
+    match goal with |- context [(?g l s)] => set (go := g) end.
+    assert (H : forall s, go' (map (fun kv => (fst kv, ymap erase_leaf (snd kv))) l) (est s) = (fst (go l s), est (snd (go l s)))).
+    { clear s. induction IH as [|[k x] l Hx Hl IHl]; intros s; [reflexivity|]. simpl. cbn [snd] in Hx.
+      rewrite Hx. destruct (inst parent x s) as [x' s1]. cbn [fst snd].
+      rewrite IHl. destruct (go l s1) as [l'' s2]. reflexivity. }
+    rewrite H. destruct (go l s). reflexivity.
+Qed.
+
 Lemma erase_covered p : rtree0 p -> wnr [] p -> tree (erase p) /\ wn [] (erase p).
 Proof. intros H1 H2. split; [apply tree_erase; exact H1|apply wn_erase; exact H2]. Qed.
 
